@@ -822,8 +822,49 @@ func (lg *ledger) setAssignable(recv, x ssa.Value, blk *ssa.BasicBlock) (bool, s
 			rkeys = append(rkeys, "Type.Elem(TypeOf("+lg.key(args[0])+"))")
 		}
 	}
+	// the receiver is what a helper of the module returns, and every return of it without error yields
+	// <parameter>.Index(i): an element of the value handed to the helper
+	if ex, ok := recv.(*ssa.Extract); ok {
+		if call, ok := ex.Tuple.(*ssa.Call); ok {
+			if g := call.Call.StaticCallee(); g != nil && inModule(g) && len(g.Blocks) > 0 && len(g.Params) == len(call.Call.Args) {
+				k, n := -1, 0
+				for _, b := range g.Blocks {
+					ret, isRet := b.Instrs[len(b.Instrs)-1].(*ssa.Return)
+					if !isRet || ex.Index >= len(ret.Results) {
+						continue
+					}
+					if last := ret.Results[len(ret.Results)-1]; isErrorType(last.Type()) && definitelyNonNil(last) {
+						continue // a failing return
+					}
+					n++
+					r2, _, isIdx := reflectValueCall(ret.Results[ex.Index], "Index")
+					pi := -1
+					for i, prm := range g.Params {
+						if isIdx && r2 == ssa.Value(prm) {
+							pi = i
+						}
+					}
+					if pi < 0 || (k >= 0 && k != pi) {
+						k, n = -1, -1000
+						break
+					}
+					k = pi
+				}
+				if k >= 0 && n > 0 {
+					a := call.Call.Args[k]
+					rkeys = append(rkeys, "Type.Elem(Type("+lg.key(a)+"))")
+					if args, ok := reflectFunc(a, "ValueOf"); ok {
+						rkeys = append(rkeys, "Type.Elem(TypeOf("+lg.key(args[0])+"))")
+					}
+				}
+			}
+		}
+	}
 	if len(rkeys) == 0 {
 		return false, ""
+	}
+	if ok, why := lg.proveAssignableT(x, rkeys, blk, 0); ok {
+		return true, why
 	}
 	var check func(v ssa.Value, at *ssa.BasicBlock) bool
 	check = func(v ssa.Value, at *ssa.BasicBlock) bool {
